@@ -1,0 +1,10 @@
+//go:build !verif
+// +build !verif
+
+package scipipe
+
+// No-op twins of the verification hooks in verif_hooks.go (build tag `verif`).
+
+func vhook(point string, args ...string) {}
+
+func vhookTask(point string, t *Task) {}
